@@ -2,6 +2,7 @@ package blockchain
 
 import (
 	"crypto/rand"
+	"errors"
 	"fmt"
 	"math"
 	"time"
@@ -345,6 +346,8 @@ func (bc *Blockchain) findBlockSolution(bl *block.Block, min_diff Uint128) {
 	}
 }
 
+var errLowDifficulty = errors.New("block does not match minimum difficulty requirements")
+
 func (bc *Blockchain) blockFound(bl *block.Block, powHash [16]byte) ([]stratum.FoundBlockInfo, error) {
 	foundInfo := []stratum.FoundBlockInfo{}
 
@@ -385,8 +388,8 @@ func (bc *Blockchain) blockFound(bl *block.Block, powHash [16]byte) ([]stratum.F
 
 	if !success {
 		return nil, fmt.Errorf(
-			"block does not match minimum difficulty requirements, hash %x diff %s",
-			powHash, hashToDiff(powHash),
+			"%w, hash %x diff %s",
+			errLowDifficulty, powHash, hashToDiff(powHash),
 		)
 	}
 	return foundInfo, nil
